@@ -242,6 +242,9 @@ func GetAttrString(self Object, key string) (res Object, err error) {
 		dict := I.GetDict()
 		res, ok = dict[key]
 		if ok {
+			if T, isType := self.(*Type); isType {
+				res = typeAttr(T, key, res)
+			}
 			return res, err
 		}
 	}
@@ -250,7 +253,7 @@ func GetAttrString(self Object, key string) (res Object, err error) {
 	// base classes, in method resolution order
 	if T, ok := self.(*Type); ok {
 		if res = T.Lookup(key); res != nil {
-			return res, nil
+			return typeAttr(T, key, res), nil
 		}
 	}
 
